@@ -353,9 +353,9 @@ class MeasurePOVM(Contract):
     def ensure(self, w, old, new, ghost, obj, args, kwargs, result):
         cl = invariant_clauses(new)
         tn = ghost["targets"]
-        touched = tn + (ghost["partners"] if ghost["destructive"] and not ghost["partial"] else [])
-        cl += frame_clauses(old, new, touched, single=(len(tn) == 1 and not (ghost["destructive"] and not ghost["partial"])),
-                            merged_targets=tn if len(tn) > 1 else ())
+        touched = tn + (ghost["partners"] if not ghost["partial"] else [])
+        cl += frame_clauses(old, new, touched, single=(len(tn) == 1 and ghost["partial"]),
+                            merged_targets=tn if (len(tn) > 1 and not ghost["destructive"]) else ())
         if ghost["joint"] is None:
             return cl
         rho, dims, names = ghost["joint"]
@@ -386,30 +386,60 @@ class MeasurePOVM(Contract):
         cl.append(Clause("C09", "zero-probability-outcome-never-reported", pi > 1e-12, f"outcome {outcome} has p={pi:.3g}"))
         res = {w.name(k): int(v) for k, v in (others or {}).items()}
         destroyed_exp: List[str] = []
+        live_partners = [q for q in ghost["partners"] if q in old.live]
         if ghost["destructive"]:
             destroyed_exp = [t for t in tn if not t.startswith("c")]
-            want_partners = [] if ghost["partial"] else [q for q in ghost["partners"] if q in old.live]
+            want_partners = [] if ghost["partial"] else live_partners
             cl.append(Clause("C09", "partners-reported-in-second-component", sorted(res) == sorted(want_partners),
                              f"reported {sorted(res)}, specified {sorted(want_partners)}"))
-            # partner draws follow the Born rule of the post-POVM state with the addressed subsystems removed
-            k = 1
-            for q in want_partners:
-                if q not in res:
+            destroyed_exp += [q for q in want_partners if q in res]
+            hidden_ok = list(destroyed_exp)        # destroyed subsystems may be sampled with an unreported outcome (unravelling)
+        else:
+            # Non-destructive: nothing is destroyed.  The `partial` docstring says the partner 'is measured as well' when
+            # partial=False, the composite route leaves it alone; both are accepted (partner optional), but a reported
+            # partner must follow the Born rule of the post-POVM state and stay alive.
+            allowed = [] if ghost["partial"] else live_partners
+            cl.append(Clause("C09", "non-destructive-mode-reports-only-partner-outcomes", set(res) <= set(allowed),
+                             f"reported {sorted(res)}, allowed {sorted(allowed)}"))
+            hidden_ok = []
+        # every further draw is a Born-rule draw of a reported partner or of a destroyed subsystem, conditioned on the earlier ones
+        todo = [q for q in res if q in names] + [h for h in hidden_ok if h not in res]
+        born_ok = True
+        for k, d in enumerate(draws[1:], start=1):
+            p2 = d["p"]
+            if p2 is None:
+                continue
+            match = None
+            seen = {}
+            for m in todo:
+                i = names.index(m)
+                if dims[i] != len(p2):
                     continue
+                b = S.spec_born(cond, dims, i)
+                seen[m] = b
+                if np.max(np.abs(b - p2)) <= 1e-7 and (m not in res or res[m] == d["chosen"]):
+                    match = m
+                    break
+            if match is None:
+                done = [m for m in names if m not in todo and dims[names.index(m)] == len(p2)
+                        and S.spec_born(cond, dims, names.index(m))[d["chosen"]] > 1 - 1e-7 and p2[d["chosen"]] > 1 - 1e-7]
+                if done:
+                    continue
+                cl.append(Clause("C09", "partner-measurement-follows-the-born-rule", False,
+                                 f"draw {k}: p={np.round(p2, 6).tolist()} chosen={d['chosen']}; Born distributions: "
+                                 + "; ".join(f"{m}:{np.round(b, 6).tolist()}" for m, b in seen.items())))
+                born_ok = False
+                break
+            cond, _ = S.spec_project(cond, dims, names.index(match), d["chosen"])
+            todo.remove(match)
+        if born_ok:
+            for q in [q for q in todo if q in res]:
                 i = names.index(q)
                 b = S.spec_born(cond, dims, i)
-                if k < len(draws) and draws[k]["p"] is not None and len(draws[k]["p"]) == len(b):
-                    cl.append(Clause("C09", "partner-measurement-follows-the-born-rule", np.max(np.abs(draws[k]["p"] - b)) <= 1e-7,
-                                     f"{q}: drawn {np.round(draws[k]['p'], 6).tolist()} vs Born {np.round(b, 6).tolist()}"))
-                    k += 1
-                else:
-                    cl.append(Clause("C09", "partner-outcome-without-a-draw-is-certain", 0 <= res[q] < len(b) and b[res[q]] > 1 - 1e-7,
-                                     f"{q}: reported {res[q]}, Born {np.round(b, 6).tolist()}"))
+                cl.append(Clause("C09", "partner-outcome-without-a-draw-is-certain", 0 <= res[q] < len(b) and b[res[q]] > 1 - 1e-7,
+                                 f"{q}: reported {res[q]}, Born {np.round(b, 6).tolist()}"))
                 if 0 <= res[q] < len(b) and b[res[q]] > 1e-12:
                     cond, _ = S.spec_project(cond, dims, i, res[q])
-                destroyed_exp.append(q)
-        else:
-            cl.append(Clause("C09", "non-destructive-mode-reports-no-partner-outcomes", not res, f"reported {sorted(res)}"))
         keep = [n for n in names if n not in destroyed_exp]
         for n in names:
             sub = new.sub[n]
